@@ -137,6 +137,7 @@ type Run struct {
 	start       time.Time
 	batchLog    *os.File
 	pinpoint    string
+	reachSample int
 	Workers     int
 }
 
@@ -165,6 +166,10 @@ func NewRun(prop, tier string) *Run {
 		}
 	}
 	r.pinpoint = os.Getenv("VH_PINPOINT")
+	if v, err := strconv.Atoi(os.Getenv("VH_REACH_SAMPLE")); err == nil && v > 0 {
+		r.reachSample = v
+		r.pinpoint = "reach" // no evidence file, no floor message
+	}
 	if p := os.Getenv("VH_BATCHLOG"); p != "" {
 		f, err := os.OpenFile(p, os.O_CREATE|os.O_WRONLY|os.O_APPEND, 0o644)
 		if err == nil {
@@ -264,6 +269,9 @@ func (r *Run) matchFinding(v *Violation) *Finding {
 // Violate records a violation: either attributed to a listed open finding
 // (KNOWN-FINDING, does not fail the run) or reported as VIOLATION.
 func (r *Run) Violate(v *Violation) {
+	if r.reachSample > 0 {
+		return // the reach pass only measures which library code the workload executes
+	}
 	v.Property = r.Prop
 	v.Seed, v.Tier = r.Seed, r.Tier
 	v.ExprB64 = base64.StdEncoding.EncodeToString([]byte(v.Expr))
@@ -364,7 +372,7 @@ func (r *Run) exec(w Workload) {
 		w.Batch = 1000
 	}
 	t0 := time.Now()
-	if r.pinpoint != "" {
+	if r.pinpoint != "" && r.reachSample == 0 {
 		// VH_PINPOINT=name:start:end — replay one batch, logging every case before it runs.
 		parts := strings.Split(r.pinpoint, ":")
 		if len(parts) != 3 || parts[0] != w.Name {
@@ -385,6 +393,18 @@ func (r *Run) exec(w Workload) {
 			w.Do(i, t)
 		}
 		r.Merge(t)
+		return
+	}
+	if r.reachSample > 0 {
+		// reach pass (coverage-instrumented build): a strided sample of the same cases, no verdicts kept
+		stride := (w.N + r.reachSample - 1) / r.reachSample
+		if stride < 1 {
+			stride = 1
+		}
+		t := r.NewTally()
+		for i := 0; i < w.N; i += stride {
+			w.Do(i, t)
+		}
 		return
 	}
 	var next int64
